@@ -44,10 +44,17 @@ func (r *okProto) SetOption(string, interface{}) error               { return ma
 func VH14a_backoff() {
 	A := verif.Param("A", 3)
 	lab := "C14/dialer"
-	r := verif.Duration("reconnect")
-	m := verif.Duration("max-reconnect")
-	verif.Assume(verif.And(r >= 1, r <= time.Hour))
-	verif.Assume(verif.Or(m == 0, verif.And(m >= r, m <= 24*time.Hour)))
+	var r, m time.Duration
+	if verif.Param("deep", 0) == 1 {
+		// deep runs: concrete times (the arithmetic over many attempts would otherwise be non-linear)
+		r = 100 * time.Millisecond
+		m = []time.Duration{0, 350 * time.Millisecond, 10 * time.Second}[verif.Choice("max", 3)]
+	} else {
+		r = verif.Duration("reconnect")
+		m = verif.Duration("max-reconnect")
+		verif.Assume(verif.And(r >= 1, r <= time.Hour))
+		verif.Assume(verif.Or(m == 0, verif.And(m >= r, m <= 24*time.Hour)))
+	}
 	asynch := verif.Choice("asynch", 2) == 1
 	rp := &okProto{}
 	sock := protocol.MakeSocket(rp)
@@ -57,8 +64,20 @@ func VH14a_backoff() {
 	verif.Assert(err == nil, lab+"/new-dialer")
 	td := vt.T.Dialers[0]
 	var outcomes []int // 0 refused, 1 established, 2 established but protocol rejects
+	// deep runs (parameter "deep"): the outcomes follow one of a few periodic patterns instead of being chosen
+	// freely, so that many attempts (10; 16 thorough) stay affordable
+	patterns := [][]int{{0}, {1}, {2}, {0, 1}, {0, 0, 1}, {1, 2}, {0, 0, 0, 1}, {1, 1, 0}}
+	var pattern []int
+	if verif.Param("deep", 0) == 1 {
+		pattern = patterns[verif.Choice("pattern", len(patterns))]
+	}
 	td.Outcome = func(n int) (*vt.Pipe, error) {
-		o := verif.Choice("outcome", 3)
+		var o int
+		if pattern != nil {
+			o = pattern[n%len(pattern)]
+		} else {
+			o = verif.Choice("outcome", 3)
+		}
 		outcomes = append(outcomes, o)
 		rp.refuse = o == 2
 		if o == 0 {
@@ -66,7 +85,12 @@ func VH14a_backoff() {
 		}
 		return vt.NewPipe(vt.T, "c"), nil
 	}
-	closeAt := verif.Choice("close-at", A+2) // attempt index after which the dialer is closed (A+1: never)
+	closeAt := A + 1 // attempt index after which the dialer is closed (A+1: never)
+	if pattern != nil {
+		closeAt = A + 1 - 2*verif.Choice("close-late", 2) // never, or after the last but one attempt
+	} else {
+		closeAt = verif.Choice("close-at", A+2)
+	}
 	var derr error
 	dg := verif.Go("dial", func() { derr = d.Dial() })
 	verif.Quiesce()
